@@ -16,7 +16,7 @@
    ([CCollect]) and the later bulk Del of the i-th cleanup in flight ([CDeleteKeys i]);
    [flat_map ev_op es] = the client operations of the schedule, in order; [cget s k] = Get(k). *)
 From Kit Require Import C15.Model C15.Spec C15.Check C15.ProofsMap C15.Proofs C15.ProofsConc
-  C15.ProofsLife C15.ProofsMain.
+  C15.ProofsLife C15.ProofsMain C15.Ghost.
 Local Open Scope Z_scope.
 
 (* GET IS SOUND (sequential).  For every MaxTTL, initial clock and history of any length: if Get(k)
@@ -284,3 +284,31 @@ Theorem C15_model_meets_spec : forall maxttl t0 ops,
   all_obs_ok true maxttl [] ops (results maxttl t0 ops) = true.
 Proof. exact model_meets_spec. Qed.
 Print Assumptions C15_model_meets_spec.
+
+(* DEFECT (fix: C15-set-racing-bulk-delete).  C15/Ghost.v extends the interleaved system with what
+   haxmap really does when a Set lands while a bulk Del is removing the list neighbour of the new
+   node ([GSetRacing k v ttl i] = Set overlapping the i-th cleanup's bulk Del): the new entry is
+   reachable by Get but invisible to ForEach, so Reset / Cleanup never remove it.  Before the fix
+   ([Original], Set and the bulk Del unserialised) there is a schedule after which Get(1) answers 7
+   although the client history ends with a Reset - no justification exists. *)
+Theorem C15_reset_ghost_refuted :
+  exists s, grun Original 0 (ginit 0)
+              [GEv (CSet 0 1 1); GEv (CAdvance 2000000000); GEv CCollect; GSetRacing 1 7 1000 0;
+               GEv CReset] = Some s /\
+            cget (gc s) 1 = Some 7 /\
+            rev (chist (gc s)) = [OSet 0 1 1; OAdvance 2000000000; OSet 1 7 1000; OReset] /\
+            ~ justified 0 (rev (chist (gc s))) 1 7.
+Proof. exact ghost_reset_refuted. Qed.
+Print Assumptions C15_reset_ghost_refuted.
+
+(* With the fix ([Fixed]: Set holds the cache's lock shared, Delete / Cleanup's and Reset's bulk Del
+   hold it exclusively) the racing event cannot happen; every schedule of the extended system is
+   a schedule of the interleaved system above, and every hit is justified by the client
+   operations issued so far. *)
+Theorem C15_get_sound_fixed : forall maxttl t0 es s k v,
+  grun Fixed maxttl (ginit t0) es = Some s -> cget (gc s) k = Some v ->
+  exists h1 ttl h2,
+    flat_map ev_op (gproj es) = h1 ++ OSet k v ttl :: h2 /\ 0 < ttl /\ Forall (leaves k) h2 /\
+    elapsed h2 < eff_ttl maxttl ttl * second_ns.
+Proof. exact ghost_fixed_get_sound. Qed.
+Print Assumptions C15_get_sound_fixed.
